@@ -726,6 +726,25 @@ def shard_context_sequences(item, res, ctx):
                 res.violation("context_sequence", {"part": "context_sequence", "last": seq[-1], "length": n}, case,
                               "parsed under contexts %s in turn: the last model holds %r, its context says %r" % ("->".join(seq), got, exp))
     res.sample({"part": "context_sequence", "source": CTXSEQ_SRC, "contexts": {k: v[0] for k, v in CTXSEQ_CONTEXTS.items()}})
+    # a model in which EVERY variable is a log-variable: the list written out, and "!all-but" followed by nothing
+    # (in two keyword spellings, at the end of the file and before another block), must declare the same log status
+    base = ("!transition-variables a, b\n!transition-shocks e\n!transition-equations\n"
+            "    log(a) = 0.5*log(a[-1]) + e;\n    b = a^0.5 * b[-1]^0.3;\n")
+    for label, tail in (("list", "!log-variables a, b\n"), ("all_but_empty", "!log-variables !all-but\n"),
+                        ("all_but_empty_underscores", "!log_variables !all_but\n"),
+                        ("all_but_empty_then_block", "!log-variables !all-but\n\n!parameters p\n")):
+        res.ev()
+        case = {"part": "context_sequence", "all_log_form": label}
+        try:
+            m = ir.Simultaneous.from_string(base + tail)
+            names, lg = m.create_qid_to_name(), m.create_qid_to_logly()
+            got = {names[q]: lg.get(q) for q in names if names[q] in ("a", "b")}
+        except Exception as e:
+            res.violation("all_log_forms", {"part": "all_log_forms", "form": label, "error": type(e).__name__}, case, "%s: %s" % (type(e).__name__, str(e)[:200]))
+            continue
+        res.count("all_log_forms_checked")
+        if got != {"a": True, "b": True}:
+            res.violation("all_log_forms", {"part": "all_log_forms", "form": label}, case, "log status %r, every variable is declared a log-variable" % (got,))
 
 
 def run(ctx, total, info):
@@ -759,6 +778,7 @@ def run(ctx, total, info):
         "least_used_switch_on_count": (on_min, 400 if q else 15000),
         "pf_cases_exact": (c.get("pf_cases_exact", 0), 19000 if q else 850000),
         "context_sequences_checked": (c.get("context_sequences_checked", 0), 84),
+        "all_log_forms_checked": (c.get("all_log_forms_checked", 0), 4),
         "pf_rejections_of_known_limits_seen": (sum(v for k, v in c.items() if k.startswith("pf_rejected_allowed:")), 600),
     }
 
